@@ -14,10 +14,12 @@ Link to the code
     on the real run: at-most-once, no timeout after claim/clear/shutdown, claimed-after-timeout, duplicate identity,
     futures completed on timeout, shutdown finality, every outstanding request times out exactly at its deadline.
 
-Case families
-  random     seeded histories over 1..7 cache objects, few identities (collisions are the point), delays on a 125 ms
-             grid so that pops and expiries meet in the same loop iteration, ops placed on "lanes" (k call_soon hops
-             after a timer) to order them before/after the task wake-up inside one virtual instant
+Case families (what is complete / sampled per tier: evidence key coverage.exhaustive_scopes)
+  random     seeded histories over 1..9 cache objects, few identities (collisions are the point), delays mostly on a
+             125 ms grid so that pops and expiries meet in the same loop iteration (plus 50/100/333 ms), ops placed on
+             "lanes" (k call_soon hops after a timer); on_timeout bodies and response-handler bodies issue further calls
+  population 10..40 objects, up to 12 identities, negative and > 16 bit numbers
+  long       10 s default and 700..1300 s delays, histories up to 2400 s (past TaskManager._check_tasks)
   lanes      exhaustive: N<=4 caches expiring at the same instant x per-cache pop lane x global clear/shutdown lane
              x on_timeout body (pop neighbour / pop self / add a fresh cache under the same identity)
   sequences  exhaustive: every op sequence up to a length over {add a, add b, pop, clear, mk+add fresh} executed
@@ -36,7 +38,7 @@ PROPERTY = "C10"
 LEAN_TARGETS = ["Ipv8.C10.Props"]
 PROPS_FILE = "Ipv8/C10/Props.lean"
 DRIVER = "drv_c10"
-LEANCHECKER_MODULES = ["Ipv8.C10.Model", "Ipv8.C10.Lemmas", "Ipv8.C10.Source", "Ipv8.C10.AsyncTask"]
+LEANCHECKER_MODULES = ["Ipv8.C10.Model", "Ipv8.C10.Lemmas", "Ipv8.C10.Source", "Ipv8.C10.AsyncTask", "Ipv8.C10.TaskMgr"]
 RULE = ("a case = one scripted history run on the real RequestCache under the virtual clock; distinct = distinct "
         "(specs, script); non-trivial = at least one request was registered and at least one of them was resolved by "
         "the scripted history itself (claim, timeout, or a scripted clear/shutdown while outstanding) - the harness's "
@@ -53,8 +55,8 @@ TRUSTED_BASE = [
 ]
 ASSUMPTIONS = [
     "asyncio enters the request-cache model as enabledness rules R1-R4 (validated by trace inclusion on every history); "
-    "AsyncTask.lean (Task.cancel/__step transcription) is executed against the real asyncio.Task at every observed "
-    "cancel (phase at cancel -> body entered? ended how?), TaskMgr.lean (several Tasks per cache, done_cb window) is "
+    "AsyncTask.lean (Task.cancel/__step transcription) is compared with the real asyncio.Task at every observed cancel, "
+    "but only through 8 fixed scripts (delayed? x phase at cancel x body raised?): body entered? ended how?; TaskMgr.lean (several Tasks per cache, done_cb window) is "
     "not executed: only its `doneCbGuarded` parameter is read from taskmanager.py",
     "on_timeout bodies and done-callbacks run synchronous RequestCache calls only; shutdown() is awaited from a task",
     "single event-loop thread (the threading.Lock in RequestCache is not modelled)",
@@ -617,6 +619,12 @@ class Run:
             self.emit(f"get {p} {enc(n)}", "got none" if o is None else f"got {self.name_of(o)}")
             return
         if kind == "enter":
+            if self.cms:
+                # what an inner exit does to an outer block is not specified by C10 (the code resets everything, a
+                # nesting-aware context manager would restore): nested blocks are not generated, so neither the oracle
+                # nor the model pins that choice
+                self.stats["nested_enter_skipped"] = self.stats.get("nested_enter_skipped", 0) + 1
+                return
             tm, fs = op[1], op[2]
             if fs is None:
                 cm = self.rc.passthrough(timeout=tm / 1000.0)
@@ -658,7 +666,7 @@ class Run:
             return
         if kind in ("shutdown", "tmshutdown"):
             if self.in_fire is not None or self.in_handler:
-                return
+                self.stats["shutdown_scheduled_from_sync_code"] = self.stats.get("shutdown_scheduled_from_sync_code", 0) + 1
             if kind == "tmshutdown":
                 self.sd_tasks.append(self.loop.create_task(self._tm_sd()))
                 return
@@ -811,9 +819,7 @@ class Run:
         try:
             await self.rc.shutdown()
         except Boom:
-            # an on_timeout that raised in this very loop iteration: its finished task is still registered, and
-            # shutdown() re-raises its exception out of gather() — behaviour of the unchanged code, not a C10 matter
-            self.stats["shutdown_reraised"] = self.stats.get("shutdown_reraised", 0) + 1
+            pass                                   # (older trees re-raised a failed on_timeout out of gather())
         except Exception as e:  # e.g. a timeout task that should have been cancelled finished with an exception
             self.loop_errors.append(f"shutdown() raised {type(e).__name__}: {e}")
 
@@ -951,10 +957,18 @@ def gen_random(rng, size: int) -> dict:
             if rng.random() < 0.3 or not ks:
                 return ["add", owner]          # re-register the request whose on_timeout is running
             return ["add", rng.choice(ks)]
-        if r < 0.82:
+        if r < 0.80:
             return ["clear"]
-        if r < 0.9:
+        if r < 0.86:
             return ["get", p, n]
+        if r < 0.89:
+            return ["regfut", owner, rng.random() < 0.5]        # a future registered while the timeout is delivered
+        if r < 0.92:
+            return rng.choice([["enter", rng.choice([0, 250]), None], ["exit", "normal"]])
+        if r < 0.94:
+            return ["wait", p, n, rng.choice([None, 250])]
+        if r < 0.96:
+            return [rng.choice(["shutdown", "tmshutdown"])]
         return [rng.choice(["fset", "fcancel"]), owner, rng.randrange(2)]
 
     def handler_body(p, n):
@@ -972,6 +986,8 @@ def gen_random(rng, size: int) -> dict:
         if rng.random() < 0.2:
             q, m = rng.choice(idents)
             ops.append(["pop", q, m, "str"])
+        if rng.random() < 0.08:
+            ops.append(rng.choice([["clear"], ["shutdown"], ["tmshutdown"]]))
         if rng.random() < 0.3:
             ops.append(["raise"])                               # the handler rejects the response / has a fault
         return ops
@@ -1279,7 +1295,7 @@ def compare_with_model(ctx: Ctx, batch):
 def family_cases(ctx: Ctx):
     rng = ctx.rng
     # random histories
-    n_random = ctx.scale(5000, 20000)
+    n_random = ctx.scale(3500, 20000)
     for i in range(n_random):
         yield gen_random(rng, rng.choice([1, 2, 2, 3, 4, 4, 5, 6]))
     for i in range(ctx.scale(150, 1000)):
@@ -1293,7 +1309,7 @@ def family_cases(ctx: Ctx):
         bodies6 = [None, "next", "self", "fresh", "readd", "clear_readd"]
         for _ in range(10000):
             yield lanes_case(3, rng.random() < 0.5, tuple(rng.choice(lanes6) for _ in range(3)),
-                             rng.choice([None] + [(g, ln) for g in ("clear", "shutdown") for ln in LANES]),
+                             rng.choice([None] + [(g, ln) for g in ("clear", "shutdown", "tmshutdown") for ln in LANES]),
                              tuple(rng.choice(bodies6) for _ in range(3)), rng.random() < 0.3,
                              rng.choice(list(itertools.permutations(range(3)))))
         for order in itertools.permutations(range(3)):
@@ -1319,14 +1335,14 @@ def family_cases(ctx: Ctx):
         for a in lanes_space(1, True):
             yield lanes_case(*a)
         space2 = list(lanes_space(2, True)) + [a for a in lanes_space(2, True, stagger=True) if not a[1]]
-        for _ in range(1500):
+        for _ in range(1000):
             yield lanes_case(*rng.choice(space2))
         for n, cnt in ((3, 500), (4, 300)):
             lanes = [None] + LANES
             bodies = [None, "next", "self", "fresh", "readd", "clear_readd"]
             for _ in range(cnt):
                 a = (n, rng.random() < 0.5, tuple(rng.choice(lanes) for _ in range(n)),
-                     rng.choice([None] + [(g, ln) for g in ("clear", "shutdown") for ln in LANES]),
+                     rng.choice([None] + [(g, ln) for g in ("clear", "shutdown", "tmshutdown") for ln in LANES]),
                      tuple(rng.choice(bodies) for _ in range(n)), rng.random() < 0.25,
                      rng.choice(list(itertools.permutations(range(n)))))
                 yield lanes_case(*a)
@@ -1363,27 +1379,31 @@ def run(ctx: Ctx):
         "length 4 with unequal delays.  SAMPLED (not exhaustive): n=3 with all lanes/bodies/add orders (10000 draws); "
         "which of the n! same-instant expiry orders occurs is whatever the loop's heap yields for the given add order") \
         if ctx.thorough() else (
-        "COMPLETE: lanes n=1; sequences up to length 3.  SAMPLED: lanes n=2 (1500 draws), n=3 (500), n=4 (300) over all "
+        "COMPLETE: lanes n=1; sequences up to length 3.  SAMPLED: lanes n=2 (1000 draws), n=3 (500), n=4 (300) over all "
         "lanes/bodies/add orders; sequences of length 4-6 (600)")
 
 
 def search(ctx: Ctx, reason: str):
-    """wider implementation-only search: more random histories and the complete small scopes, oracle only"""
+    """wider implementation-only search after a broken obligation: oracle only, bounded (~1 min) so that a failing
+    quick run stays well under 3 minutes"""
     logging.disable(logging.CRITICAL)
     rng = ctx.rng
-    for n in (1, 2):
-        for a in lanes_space(n, True):
-            run_case(ctx, lanes_case(*a), None)
-            if len(ctx.failures) > 20:
-                return
-    for seq, atd in seq_space(4):
-        run_case(ctx, seq_case([SEQ_ALPHABET[i] for i in seq], atd), None)
+    for a in lanes_space(1, True):
+        run_case(ctx, lanes_case(*a), None)
+    space2 = list(lanes_space(2, True))
+    for _ in range(6000):
+        run_case(ctx, lanes_case(*rng.choice(space2)), None)
         if len(ctx.failures) > 20:
             return
-    for _ in range(6000):
+    for seq, atd in seq_space(3):
+        run_case(ctx, seq_case([SEQ_ALPHABET[i] for i in seq], atd), None)
+    for _ in range(4000):
         run_case(ctx, gen_random(rng, rng.choice([2, 3, 4, 5, 6])), None)
         if len(ctx.failures) > 20:
             return
+    for _ in range(200):
+        run_case(ctx, gen_population(rng), None)
+        run_case(ctx, gen_long(rng), None)
 
 
 def replay(ctx: Ctx, rec: dict):
